@@ -191,6 +191,7 @@ type outMsg struct {
 
 type bcMut struct {
 	name  string
+	drop  bool                                  // after answering, get dropped (empty message) while the answer is being verified
 	pair  bool                                  // also answers the request for T+1
 	resp  func(s *bcScen, h int64) [][]byte     // hostile answers to a block request for height h
 	unsol func(s *bcScen) []outMsg              // unsolicited messages, sent once after connecting
@@ -212,7 +213,11 @@ func resp(b *types.Block) [][]byte { return [][]byte{encBC(&xBlockResponse{b})} 
 func mutB(name string, f func(s *bcScen, h int64, b *types.Block)) *bcMut {
 	return &bcMut{name: name, resp: func(s *bcScen, h int64) [][]byte {
 		b := s.src(h)
-		f(s, h, b)
+		hc := b.Header.Height // h clamped to the source chain
+		f(s, hc, b)
+		if hc != h && b.Header != nil && b.Header.Height == hc {
+			b.Header.Height = h // asked beyond the chain: still answer for that height
+		}
 		return resp(b)
 	}}
 }
@@ -410,6 +415,16 @@ func bcMutations() []*bcMut {
 			cm.BlockID = fid
 			return cm
 		}),
+		// a bad first block, and its sender is dropped while poolRoutine verifies it
+		{name: "bad-3MB-block-then-dropped-during-verification", drop: true, resp: func(s *bcScen, h int64) [][]byte {
+			b := s.src(h)
+			hc := b.Header.Height
+			b.Data.Txs = append(b.Data.Txs, types.Tx(bytes.Repeat([]byte{0x42}, 3<<20)))
+			if hc != h {
+				b.Header.Height = h
+			}
+			return resp(b)
+		}},
 		// encodings
 		{name: "response-truncated", resp: func(s *bcScen, h int64) [][]byte {
 			b := encBC(&xBlockResponse{s.src(h)})
@@ -662,7 +677,7 @@ func (s *bcScen) hostile(name string, budget int, wg *sync.WaitGroup) {
 		}
 		budget -= 1
 	}
-	idle := time.NewTimer(700 * time.Millisecond)
+	idle := time.NewTimer(450 * time.Millisecond)
 	defer idle.Stop()
 	for budget > 0 {
 		select {
@@ -685,7 +700,7 @@ func (s *bcScen) hostile(name string, budget int, wg *sync.WaitGroup) {
 				default:
 				}
 			}
-			idle.Reset(700 * time.Millisecond)
+			idle.Reset(450 * time.Millisecond)
 			switch msg := decBC(m.b).(type) {
 			case *xStatusRequest:
 				rp.send(bcCh, encBC(&xStatusResponse{s.claim}))
@@ -706,8 +721,8 @@ func (s *bcScen) hostile(name string, budget int, wg *sync.WaitGroup) {
 					}
 					continue
 				}
-				if h < 1 || h > s.chain.top+300 {
-					continue
+				if h < 1 || h > s.chain.top+2 && s.rint(10) != 0 {
+					continue // far beyond the chain: nothing there is ever verified; do not spend the burst on it
 				}
 				s.rmtx.Lock()
 				bs := mut.resp(s, h)
@@ -719,6 +734,11 @@ func (s *bcScen) hostile(name string, budget int, wg *sync.WaitGroup) {
 					deliver(mut.name, outMsg{bcCh, b, fmt.Sprintf("%s in answer to request for height %d", mut.name, h)})
 				}
 				budget--
+				if mut.drop {
+					time.Sleep(time.Duration(s.rint(140)) * time.Millisecond)
+					deliver(mut.name, outMsg{bcCh, []byte{}, "empty message (panics in Receive: the peer is dropped)"})
+					continue
+				}
 				// stay in the pool: a peer that is blamed is only removed from the pool, not disconnected
 				rp.send(bcCh, encBC(&xStatusResponse{s.claim}))
 			}
